@@ -5,7 +5,7 @@
 (* the ids taken on an accepted path in the variable kf.                         *)
 EXTENDS Map, TLC
 
-KnownIds == {"C06-KF1", "C06-KF2", "C06-KF3", "C06-KF4", "C06-KF5", "C06-KF6"}
+KnownIds == {"C06-KF1", "C06-KF2"}
 
 Has3(e) == "via" \in DOMAIN e
 StubVariants == {"small_inline_4", "small_inline_16", "cache_optimized", "string_optimized"}
